@@ -81,10 +81,25 @@ static Verdict runCase(const Case& c, Info& info)
     // lookups are probed for every id the case uses plus two ids it never uses
     g_probeDevs = {4, 0x7777};
     g_probeIfs = {9, 0x77777777u};
+    bool bigTable = false;
     for (const auto& op : c.ops)
     {
         g_probeDevs.insert(op.dev);
         g_probeIfs.insert(op.iface);
+        if (op.kind <= 1 && op.burst)
+        {
+            // a burst is probed at its ends, its middle and around the 256th / 1024th entry
+            for (uint32_t k : {uint32_t(op.burst), uint32_t(op.burst / 2), 254u, 255u, 256u, 257u, 1023u, 1024u})
+                if (k <= op.burst)
+                {
+                    if (op.kind == 0)
+                        g_probeDevs.insert(static_cast<uint16_t>(op.dev + k));
+                    else
+                        g_probeIfs.insert(op.iface + k);
+                }
+            if (op.burst >= 256)
+                bigTable = true;
+        }
     }
     for (size_t i = 0; i < c.ops.size(); ++i)
     {
@@ -96,13 +111,22 @@ static Verdict runCase(const Case& c, Info& info)
             case 2:
             case 6:
             {
-                lib::Packet p = makeStatusUpdate(op, i);
-                Snap s = snap(p);
-                st.update(p);
-                if (op.kind == 0)
-                    model[op.dev].cm = s;
-                else if (op.kind == 1 && model.count(op.dev))
-                    model[op.dev].ifaces[op.iface] = s;
+                const uint32_t n = op.kind <= 1 ? op.burst : 0;
+                for (uint32_t k = 0; k <= n; ++k)
+                {
+                    Op o = op;
+                    if (op.kind == 0)
+                        o.dev = static_cast<uint16_t>(op.dev + k);
+                    else if (op.kind == 1)
+                        o.iface = op.iface + k;
+                    lib::Packet p = makeStatusUpdate(o, i + 1000 * static_cast<size_t>(k));
+                    Snap s = snap(p);
+                    st.update(p);
+                    if (o.kind == 0)
+                        model[o.dev].cm = s;
+                    else if (o.kind == 1 && model.count(o.dev))
+                        model[o.dev].ifaces[o.iface] = s;
+                }
                 if (removed && op.kind <= 1)
                     updateAfterRemoval = true;
                 break;
@@ -134,6 +158,8 @@ static Verdict runCase(const Case& c, Info& info)
         info.tag("update_after_a_removal");
     if (removed)
         info.tag("has_effective_removal");
+    if (bigTable)
+        info.tag("burst_of_256_or_more_distinct_ids");
     info.count("ops", c.ops.size());
     info.nontrivial = updateAfterRemoval;
     return Verdict::pass();
@@ -166,6 +192,27 @@ static rc::Gen<Case> genCase(int tier)
             // two fifths of the updates carry one of three fixed payload contents: the same report again, with other header fields
             op.content = *rc::gen::weightedElement<uint8_t>({{6, 0}, {2, 1}, {1, 2}, {1, 3}});
             c.ops.push_back(op);
+        }
+        // one case in ten: many entries alive at once - one update becomes a burst over consecutive ids (table sizes around 2^8 / 2^10)
+        if (*range<int>(0, 9) == 0)
+        {
+            std::vector<size_t> cand;
+            for (size_t i = 0; i < c.ops.size(); ++i)
+                if (c.ops[i].kind <= 1)
+                    cand.push_back(i);
+            if (!cand.empty())
+            {
+                Op& op = c.ops[cand[*range<size_t>(0, cand.size() - 1)]];
+                op.burst = *rc::gen::weightedOneOf<uint16_t>({{3, range<uint16_t>(250, 300)}, {1, range<uint16_t>(1000, 1100)}, {2, range<uint16_t>(8, 70)}});
+                if (op.kind == 1 && *range<int>(0, 1) == 0)
+                {
+                    // make sure the device is tracked when the interfaces arrive
+                    Op cm = op;
+                    cm.kind = 0;
+                    cm.burst = 0;
+                    c.ops.insert(c.ops.begin(), cm);
+                }
+            }
         }
         return c;
     });
